@@ -126,6 +126,12 @@ func debugFunc(args []string) int {
 					return
 				}
 				fmt.Fprintf(&sb, "  [%s %dms %s x%d] %s  -- %s\n", status, r.Ms, r.Solver, len(ins), n, ins[0].Clause)
+				if os.Getenv("GTV_DUMP_ALL") != "" && *dump != "" && strings.Contains(n, os.Getenv("GTV_DUMP_ALL")) {
+					os.MkdirAll(*dump, 0o755)
+					for j, in := range ins {
+						os.WriteFile(fmt.Sprintf("%s/all%d_%d.smt2", *dump, i, j), []byte(BuildQuery(fr, in)+"(check-sat)\n"), 0o644)
+					}
+				}
 				if status != "unsat" && failing != nil {
 					fmt.Fprintf(&sb, "      path: %v\n      goal: %s\n", failing.Path, truncate(failing.Goal, 400))
 					if status == "sat" {
